@@ -38,7 +38,7 @@ func notPrefix(prefixes ...string) func(string) bool {
 
 const histRule = "random multi-client/multi-peer TURN histories generated from PRNG(VERIF_SEED, case) in virtual time against a real turn.Server; " +
 	"every data-plane submission gets a three-valued verdict from an independent reference model and every server emission is matched against them at the next quiescent point; " +
-	"server timeouts come from full and from partial configurations (only one or two of PermissionTimeout / ChannelBindTimeout / AllocationLifetime set); one UDP Allocate in eight carries EVEN-PORT; one Refresh in six carries REQUESTED-ADDRESS-FAMILY (own family: must succeed; other family: either answer, applied as reported); a third of the TCP listeners are bound to the wildcard address; now and then the operator's permission handler starts to refuse (or re-admits) a peer host, after which live bindings of that host are refreshed deliberately; allocation callbacks call Server.AllocationCount; expiry probes stand 1 s or 600 ms from the instant (never within 0.8 s of another expiry), time steps may be sub-second; in a quarter of the histories the deletion callbacks are slow (yield storms under the library's locks) and channels are also bound two or three at one instant so that they expire together; in a third of the histories with a TCP client it sits on the host and port number of UDP client c0; while a slow permission-/channel-deleted callback runs, a Send indication, a datagram from an unbound port of that peer host and ChannelData on that number are submitted from inside it and must not be relayed; one Refresh/CreatePermission in eight and one ChannelBind in six of a UDP client has its answer fail in the server's socket write and is retransmitted with the same transaction id; before one data step in ten the server's socket fails once while relaying a peer's datagram to its client (the relay must go on); no permission-/channel callback may arrive later than the allocation-deleted callback of its 5-tuple; every peer has a stranger (a host no request ever names) sending from its port number; one Refresh 0 in three first binds three to five channels and is followed by one channel timeout of silence; " +
+	"server timeouts come from full and from partial configurations (only one or two of PermissionTimeout / ChannelBindTimeout / AllocationLifetime set); one UDP Allocate in eight carries EVEN-PORT; one Refresh in six carries REQUESTED-ADDRESS-FAMILY (own family: must succeed; other family: either answer, applied as reported); a third of the TCP listeners are bound to the wildcard address; now and then the operator's permission handler starts to refuse (or re-admits) a peer host, after which live bindings of that host are refreshed deliberately; allocation callbacks call Server.AllocationCount; expiry probes stand 1 s or 600 ms from the instant (never within 0.8 s of another expiry), time steps may be sub-second; in a quarter of the histories the deletion callbacks are slow (yield storms under the library's locks) and channels are also bound two or three at one instant so that they expire together; in a third of the histories with a TCP client it sits on the host and port number of UDP client c0; while a slow permission-/channel-deleted callback runs, a Send indication, a datagram from an unbound port of that peer host and ChannelData on that number are submitted from inside it and must not be relayed; one Refresh/CreatePermission in eight and one ChannelBind in six of a UDP client has its answer fail in the server's socket write and is retransmitted with the same transaction id; before one data step in ten the server's socket fails once while relaying a peer's datagram to its client (the relay must go on); no permission-/channel callback may arrive later than the allocation-deleted callback of its 5-tuple; every peer has a stranger (a host no request ever names) sending from its port number; one Refresh 0 in three first binds three to five channels and is followed by one channel timeout of silence; after every other close of a TCP control connection a new connection comes from the same address and port and sends without allocating (nothing may be relayed); one ChannelBind in six and one CreatePermission in eight carries a LIFETIME attribute (which means nothing there); one Allocate in five on a free 5-tuple repeats the transaction id with which another 5-tuple of the same user made its live allocation; " +
 	"a fingerprint is (operation, model reason class, transport, family/parameter class); non-trivial = "
 
 var metaTable = map[string]propMeta{
@@ -51,7 +51,7 @@ var metaTable = map[string]propMeta{
 			return (strings.HasPrefix(fp, "peer/") && !strings.HasPrefix(fp, "peer/norelay")) || strings.HasPrefix(fp, "inbound/")
 		}},
 	"C06": {Level: "exploration", Assumptions: commonAssumptions,
-		Rule: histRule + "allocate/refresh fingerprints by lifetime class and outcome, expiry probes, and data-plane verdicts that depend on allocation liveness; every 30th case: another client's Connect is dialling a peer that takes 20 s while an allocation reaches its lifetime - it must end on time, stop relaying, the server must keep answering, the Connect completes",
+		Rule: histRule + "allocate/refresh fingerprints by lifetime class and outcome, expiry probes, and data-plane verdicts that depend on allocation liveness; every 30th case: another client's Connect is dialling a peer that takes 20 s (or 34 s: the dialled connection must be closed again when nobody binds it) while an allocation reaches its lifetime - it must end on time, stop relaying, the server must keep answering, the Connect completes; every 30th case: the answer to a Refresh is lost in the server's socket write, the same request is retransmitted 2-4 s later and answered LIFETIME n: the allocation is there 1 s before n seconds after that answer and gone 1 s after",
 		NonTrivial: func(fp string) bool {
 			return strings.HasPrefix(fp, "allocate/") || strings.HasPrefix(fp, "refresh/") || strings.HasPrefix(fp, "probe-expiry/alloc") || strings.Contains(fp, "alloc-dead")
 		}},
@@ -64,7 +64,7 @@ var metaTable = map[string]propMeta{
 
 func init() {
 	metaTable["C05"] = propMeta{Level: "exploration", Assumptions: commonAssumptions,
-		Rule: "one authorised topology per case (client over UDP or a randomly segmented stream, inbound MTU in {default,512,1200,9000,70000}, one channel-bound peer, one permission-only peer, one other port of the bound IP); ; the real-client bursts run over UDP and (every other case) over a TCP control connection, where ChannelData must be padded on the wire; a few cases per run use operating-system loopback sockets: a real Server behind one UDP listener, clients on different loopback addresses (the second on the first one's source port), another client speaking last before each relayed datagram, which must come out at its owner and nowhere else; every fourth sweep case relays over IPv6; the real-client bursts include datagrams from a never-written-to port of the permitted host (Data indications only); half of the real-client cases run over UDP, a third of those lose the success response to the first ChannelBind (the server uses the channel for 200 ms before the client has seen it confirmed); over TCP every other case stalls the client's reading for 5 s against 4 KiB of flow-control window while the peer keeps sending; the UDP cases with a lost ChannelBind response write their first burst from four goroutines at once (multiset comparison); a third of the UDP cases put the server on a wildcard socket whose datagrams leave from another address than the one the client was configured with; every other TCP case issues one write of 65536-131073 bytes (nothing of it may reach anybody, the stream stays in step); a quarter of the datagrams toward the client are 1560-1600 bytes long (the largest the relay passes on: more than 1600 once framed)" +
+		Rule: "one authorised topology per case (client over UDP or a randomly segmented stream, inbound MTU in {default,512,1200,9000,70000}, one channel-bound peer, one permission-only peer, one other port of the bound IP); ; the real-client bursts run over UDP and (every other case) over a TCP control connection, where ChannelData must be padded on the wire; a few cases per run use operating-system loopback sockets: a real Server behind one UDP listener, clients on different loopback addresses (the second on the first one's source port), another client speaking last before each relayed datagram, which must come out at its owner and nowhere else; every fourth sweep case relays over IPv6; the real-client bursts include datagrams from a never-written-to port of the permitted host (Data indications only); half of the real-client cases run over UDP, a third of those lose the success response to the first ChannelBind (the server uses the channel for 200 ms before the client has seen it confirmed); over TCP every other case stalls the client's reading for 5 s against 4 KiB of flow-control window while the peer keeps sending; the UDP cases with a lost ChannelBind response write their first burst from four goroutines at once (multiset comparison); a third of the UDP cases put the server on a wildcard socket whose datagrams leave from another address than the one the client was configured with; every other TCP case issues one write of 65536-131073 bytes (nothing of it may reach anybody, the stream stays in step); a quarter of the datagrams toward the client are 1560-1600 bytes long (the largest the relay passes on: more than 1600 once framed); two times in three the client has also written to a second host, and the Data indications of unbound ports of both hosts queue up at the client before the application reads them" +
 			"for each payload length four datagrams (Send, ChannelData, peer->relay via channel, peer->relay via indication) with contents from 6 classes (random, zeros, 0xFF, STUN-like, magic-cookie-prefixed, ChannelData-like) are submitted and the multiset of emissions is compared byte-for-byte with the submissions, attribution included; " +
 			"thorough enumerates every length 0..1700 for each (transport, MTU) pair, quick samples boundary lengths; a fingerprint is (transport, length, content class); non-trivial = all of them (each carries four MUST/MAY-whole verdicts)",
 		NonTrivial: func(fp string) bool { return strings.HasPrefix(fp, "len/") },
@@ -102,7 +102,7 @@ func init() {
 
 func init() {
 	metaTable["C19"] = propMeta{Level: "exploration", Assumptions: commonAssumptions,
-		Rule: "per case a server with a listener of one kind (IPv4, IPv6, 0.0.0.0, [::]; strict or listener-derived family) plus a TCP listener, clients on IPv4 / IPv6 / IPv4-mapped source addresses and a quota-refused user run a random sequence of: Binding; 11 Allocate error paths; plain Allocate + reachability probe of the advertised relayed address + byte-identical retransmission (after 0..31 s) + a different Allocate on the live 5-tuple; identical transaction ids from two clients in one instant; EVEN-PORT/RESERVATION-TOKEN; ; every 50th case runs a real Server with the bundled port-range generator on operating-system loopback sockets, the range narrower than the number of raw clients: relayed addresses of live allocations must be distinct and inside the range, and a peer's datagram to each must come out at its owner (absence of that datagram is not a verdict: wall-clock); one user has an event-fed quota of one allocation (retransmission and second Allocate at quota); two clients share the source port on different hosts; an IPv4 client of a dual-stack [::] listener; EVEN-PORT also for an RFC 6062 relay; an authenticated Allocate that is never answered is reported; in the real-socket cases clients sit on different loopback addresses and another client speaks last before each relayed datagram (misdelivery is a verdict, absence is not); one retransmission in three follows a Refresh; Allocate with the all-zero transaction id on a live 5-tuple; one second Allocate in three on a live 5-tuple is signed by another user of the same socket; one UDP Allocate in six has its success response fail in the server's socket write: the retransmission must get that success; one reachability probe in four is repeated after the server's socket has failed once to pass a datagram on to the client; a lost reachability probe is a verdict of this check (relay-unreachable); after every other Binding step a response or indication of a random method (with no / an unknown required / an unknown optional / a USERNAME attribute) is sent to the server, which must not answer it" +
+		Rule: "per case a server with a listener of one kind (IPv4, IPv6, 0.0.0.0, [::]; strict or listener-derived family) plus a TCP listener, clients on IPv4 / IPv6 / IPv4-mapped source addresses and a quota-refused user run a random sequence of: Binding; 11 Allocate error paths; plain Allocate + reachability probe of the advertised relayed address + byte-identical retransmission (after 0..31 s) + a different Allocate on the live 5-tuple; identical transaction ids from two clients in one instant; EVEN-PORT/RESERVATION-TOKEN; ; every 50th case runs a real Server with the bundled port-range generator on operating-system loopback sockets, the range narrower than the number of raw clients: relayed addresses of live allocations must be distinct and inside the range, and a peer's datagram to each must come out at its owner (absence of that datagram is not a verdict: wall-clock); one user has an event-fed quota of one allocation (retransmission and second Allocate at quota); two clients share the source port on different hosts; an IPv4 client of a dual-stack [::] listener; EVEN-PORT also for an RFC 6062 relay; an authenticated Allocate that is never answered is reported; in the real-socket cases clients sit on different loopback addresses and another client speaks last before each relayed datagram (misdelivery is a verdict, absence is not); one retransmission in three follows a Refresh; Allocate with the all-zero transaction id on a live 5-tuple; one second Allocate in three on a live 5-tuple is signed by another user of the same socket; one UDP Allocate in six has its success response fail in the server's socket write: the retransmission must get that success; one reachability probe in four is repeated after the server's socket has failed once to pass a datagram on to the client; a lost reachability probe is a verdict of this check (relay-unreachable); after every other Binding step a response or indication of a random method (with no / an unknown required / an unknown optional / a USERNAME attribute) is sent to the server, which must not answer it; every third real-socket case: one client reserves a port with EVEN-PORT, two others present the RESERVATION-TOKEN one after the other (never the same relayed address for both; bundled none/static generators); one same-transaction-id step in three is two Allocates of one user from different 5-tuples (each gets its own allocation and addresses)" +
 			"a monitor on every datagram the server writes checks transaction id, destination, method and answer count; state digests (hook snapshot + AllocationCount + open relay sockets + generator call count) are compared before/after every failed or repeated request; " +
 			"non-trivial = distinct (situation x parameters x response code) fingerprints",
 		NonTrivial: func(fp string) bool { return true },
@@ -112,7 +112,7 @@ func init() {
 func init() {
 	metaTable["C03"] = propMeta{Level: "exploration", Assumptions: append(append([]string{}, commonAssumptions...),
 		"mutated-nonce cases are only run where a chance HMAC match is negligible (>= 8 HMAC bytes); validly signed future-dated nonces cannot be produced without the server key"),
-		Rule: "5 of 6 cases: public server with a standing allocation+permission+channel of one user and an allocation of another; each round draws (method in Allocate/Refresh/CreatePermission/ChannelBind/Connect) x (state: own allocation / no allocation) x (16 credential defects) and asserts: not success, state digest (hook snapshot+count+open sockets) unchanged, relay behaviour unchanged (conservation monitor), 401/438 challenges immediately usable; sound requests serve as positive control; every 23rd case runs a server without AuthHandler; ; defect class guessable-key: MESSAGE-INTEGRITY computed with a key anybody can compute (empty key, 16 zero bytes, MD5(\"::\")) for unknown, known and empty user names; defective Allocate requests also go to the owner's live 5-tuple, two times in three repeating the transaction id of the Allocate that made it; every 20th case mints challenges on 3-5 listeners for many clients at once and uses each nonce immediately; one case in five uses an auth handler that returns no user ids; every 20th case the operator replaces the user's password / removes the account while the user holds an allocation (only the key returned now authenticates); a response whose method or transaction id does not answer any open request of its recipient is a violation here too; one case in three runs the three clients over TCP control connections; short nonces are also re-dated (minute count moved by -1/-25/-59/+1 with the MAC kept, and an expired nonce moved to now): all must be refused; defect key-of-another-realm (the request presents one realm and is signed with the user's key for the configured one; the operator's handler derives keys from the realm it is asked about); in one case in four the configured realm has capitals or blanks and every 401 challenge must announce it letter for letter" +
+		Rule: "5 of 6 cases: public server with a standing allocation+permission+channel of one user and an allocation of another; each round draws (method in Allocate/Refresh/CreatePermission/ChannelBind/Connect) x (state: own allocation / no allocation) x (16 credential defects) and asserts: not success, state digest (hook snapshot+count+open sockets) unchanged, relay behaviour unchanged (conservation monitor), 401/438 challenges immediately usable; sound requests serve as positive control; every 23rd case runs a server without AuthHandler; ; defect class guessable-key: MESSAGE-INTEGRITY computed with a key anybody can compute (empty key, 16 zero bytes, MD5(\"::\")) for unknown, known and empty user names; defective Allocate requests also go to the owner's live 5-tuple, two times in three repeating the transaction id of the Allocate that made it; every 20th case mints challenges on 3-5 listeners for many clients at once and uses each nonce immediately; one case in five uses an auth handler that returns no user ids; every 20th case the operator replaces the user's password / removes the account while the user holds an allocation (only the key returned now authenticates); a response whose method or transaction id does not answer any open request of its recipient is a violation here too; one case in three runs the three clients over TCP control connections; short nonces are also re-dated (minute count moved by -1/-25/-59/+1 with the MAC kept, and an expired nonce moved to now): all must be refused; defect key-of-another-realm (the request presents one realm and is signed with the user's key for the configured one; the operator's handler derives keys from the realm it is asked about); in one case in four the configured realm has capitals or blanks and every 401 challenge must announce it letter for letter; the other user whose valid credentials are tried on the owner's 5-tuple is bob or an account that differs from the owner's in capitals only (Alice, ALICE)" +
 			"1 of 6 cases: internal/server.HandleRequest with NewNonceHash or NewShortNonceHash(n), n cycling 2..32: fresh accepted, other-instance rejected, 12 mutations rejected (n>=8), ages 30/59 min accepted and 62 min/3 h/25 h rejected in virtual time; " +
 			"non-trivial = distinct (method,state,defect,response code) and (nonce impl, situation, code) fingerprints",
 		NonTrivial: func(fp string) bool { return true },
@@ -142,7 +142,7 @@ func init() {
 			"the stream is delivered through a scripted net.Conn that returns exactly the prescribed chunks; caller buffers are larger than any frame (70000 bytes)",
 			"un-frameable bytes may be reported as an error immediately or only once 20 bytes have arrived - both satisfy 'error rather than data'",
 		},
-		Rule: "8 of 10 cases: a random sequence of 1-6 frames (STUN bodies aligned/unaligned, ChannelData payloads 0..1500 incl. 0-8 bytes and cookie-prefixed, numbers at range edges) optionally followed by an incomplete frame or un-frameable bytes, fed whole, byte-at-a-time, with every single cut and (thorough: every, quick: 1/12 of the) pair of cuts when the stream is <= 200 bytes, and 25 random multi-cut segmentations; each ReadFrom result is compared with the reference frame list, promptness is judged on the number of Reads consumed; ; a third of the random segmentations have one or two reads that time out without consuming anything (the caller reads again); every stream ends with STUNConn.Close, also mid-frame; tails include complete ChannelData messages whose number lies in 0x8000-0xFFFF; two concurrent BindConnection calls on one allocation whose replies arrive interleaved inside the 20-byte header; every fifth stream case reads with a caller buffer of 1600/1500/576/128/24 bytes: a frame that does not fit is lost (or ends the stream with an error) but the frames behind it arrive intact, promptness is judged on the segments touched; a sixth of the random segmentations have one or two reads that return (0, nil)" +
+		Rule: "8 of 10 cases: a random sequence of 1-6 frames (STUN bodies aligned/unaligned, ChannelData payloads 0..1500 incl. 0-8 bytes and cookie-prefixed, numbers at range edges) optionally followed by an incomplete frame or un-frameable bytes, fed whole, byte-at-a-time, with every single cut and (thorough: every, quick: 1/12 of the) pair of cuts when the stream is <= 200 bytes, and 25 random multi-cut segmentations; each ReadFrom result is compared with the reference frame list, promptness is judged on the number of Reads consumed; ; a third of the random segmentations have one or two reads that time out without consuming anything (the caller reads again); every stream ends with STUNConn.Close, also mid-frame; tails include complete ChannelData messages whose number lies in 0x8000-0xFFFF; two concurrent BindConnection calls on one allocation whose replies arrive interleaved inside the 20-byte header; every fifth stream case reads with a caller buffer of 1600/1500/576/128/24 bytes: a frame that does not fit is lost (or ends the stream with an error) but the frames behind it arrive intact, promptness is judged on the segments touched; a sixth of the random segmentations have one or two reads that return (0, nil); after every tail of bytes that cannot begin a frame, the same stream is continued with two more frames in later segments: the error must be reported before the last segment is read and nothing of what follows may come out as data" +
 			"1 of 10: length fields 0xFFE0..0xFFFF for both frame kinds incl. header-only prefixes; 1 of 10: client BindConnection over success/error replies cut at every position with trailing application bytes; " +
 			"non-trivial = distinct (frame count, tail kind, small/large) / (kind, extreme length) / (bind outcome, trailing bytes) fingerprints",
 		NonTrivial: func(fp string) bool { return true },
@@ -155,7 +155,7 @@ func init() {
 		"inputs are PRNG samples and structured mutations, not all byte strings; TLS listeners are not driven (the TLS record layer sits below the framing under test)",
 		"'never blocks indefinitely' is decided as: the virtual-time bubble becomes quiescent after each input (or the child is killed by the wall-clock watchdog and reported as hang with a goroutine dump)"),
 		Watchdog: map[string]time.Duration{"quick": 6 * time.Minute, "thorough": 60 * time.Minute},
-		Rule: "server cases: 200 hostile inputs per case (random, every 2-bit prefix x length-field extreme, ChannelData shapes, well-formed messages of every method/class signed or unsigned, signed-then-mutated, malformed-then-signed) delivered as UDP datagrams or as a TCP stream under random segmentation from a party that holds valid credentials, with a liveness probe after every 25 inputs (Binding from attacker and bystander, authenticated Refresh, relay both ways through a bystander's permission and channel, bystander snapshot unchanged, no mutex held); ; 3 of 40 cases: a real client against a scripted server that answers every Allocate / CreatePermission / ChannelBind with 438 and a fresh nonce for ever: each API call must give up after a bounded number of requests; 2 of 40 cases: a real client over a TCP control connection is fed garbage / cookie-less STUN / valid-then-garbage / truncated-then-EOF / out-of-range channel frames; stream inputs include maximum-length ChannelData and STUN frames (larger than the client's read buffer); 1 of 40 cases wraps the listener in TLS (crypto/tls over the simulated stream): parties that connect and send nothing, a few bytes, a record header, the start of a ClientHello or garbage linger while an honest party's Binding over TLS must still be answered; client state 'stun-only' (no TURN server configured); 1 of 40 cases: a scripted server whose Allocate and Refresh successes carry LIFETIME 0 / 1 / 2 / 2^31 / 2^32-1: the client survives, sends at most 100 Refresh requests in 10 s and completes a follow-up transaction; lifetimes now also 30/59/60/61/119/120/600/3600 (2 of 40 cases)" +
+		Rule: "server cases: 200 hostile inputs per case (random, every 2-bit prefix x length-field extreme, ChannelData shapes, well-formed messages of every method/class signed or unsigned, signed-then-mutated, malformed-then-signed) delivered as UDP datagrams or as a TCP stream under random segmentation from a party that holds valid credentials, with a liveness probe after every 25 inputs (Binding from attacker and bystander, authenticated Refresh, relay both ways through a bystander's permission and channel, bystander snapshot unchanged, no mutex held); ; 3 of 40 cases: a real client against a scripted server that answers every Allocate / CreatePermission / ChannelBind with 438 and a fresh nonce for ever: each API call must give up after a bounded number of requests; 2 of 40 cases: a real client over a TCP control connection is fed garbage / cookie-less STUN / valid-then-garbage / truncated-then-EOF / out-of-range channel frames; stream inputs include maximum-length ChannelData and STUN frames (larger than the client's read buffer); 1 of 40 cases wraps the listener in TLS (crypto/tls over the simulated stream): parties that connect and send nothing, a few bytes, a record header, the start of a ClientHello or garbage linger while an honest party's Binding over TLS must still be answered; client state 'stun-only' (no TURN server configured); 1 of 40 cases: a scripted server whose Allocate and Refresh successes carry LIFETIME 0 / 1 / 2 / 2^31 / 2^32-1: the client survives, sends at most 100 Refresh requests in 10 s and completes a follow-up transaction; lifetimes now also 30/59/60/61/119/120/600/3600 (2 of 40 cases); one liveness probe in three loses its first transmission and completes through a retransmission" +
 			"client cases: datagrams handed to Client.HandleInbound in several client states with a blocked-call detector, the documented (handled, error) table as classifier and a follow-up transaction; " +
 			"a crash with pion/turn frames, a busy loop (log-call budget) or a hang is a violation; non-trivial = distinct (transport, input class, length bucket) and (client state, input class) fingerprints",
 		NonTrivial: func(fp string) bool { return true },
@@ -169,7 +169,7 @@ func init() {
 		"responses are never placed exactly on a retransmission instant (ties are undetermined); +-1 ms offsets are used instead",
 		"go1.26.8 -race -tags verif build of /repo's working tree",
 	},
-		Rule: "fault enumeration over the 7 transmissions: every one of the 2^7 subsets of lost transmissions (quick: one response-delay policy and RTO per subset drawn from the PRNG; thorough: x 5 delay policies {0, half gap, next timer-1ms, next timer+1ms, after the schedule} x 7 RTOs), plus sampled cases of foreign-id/duplicate/late/echoed responses, 2-8 concurrent transactions with permuted answers, Client.Close after each transmission index, a write error on each transmission index, and a response delivered from inside the client's own WriteTo; ; plus (1 of 8 sampled cases) a response injected while retransmission k is being written under the client's transaction lock, the write then failing (2 of 3) or succeeding: exactly-once completion at the k-th schedule instant, no second result, lock probes, and a follow-up transaction that itself needs a retransmission; one case in three addresses its transactions to a host other than the configured TURN/STUN server; after a fire-and-forget call has returned the caller builds its next request in the same message value; Client.Close during the write of transmission k (k = 0 is the caller's own first write), the write then failing or succeeding: the call returns once with an error, Close returns; noise and concurrent cases use transaction ids that differ from an open one in a single bit or byte" +
+		Rule: "fault enumeration over the 7 transmissions: every one of the 2^7 subsets of lost transmissions (quick: one response-delay policy and RTO per subset drawn from the PRNG; thorough: x 5 delay policies {0, half gap, next timer-1ms, next timer+1ms, after the schedule} x 7 RTOs), plus sampled cases of foreign-id/duplicate/late/echoed responses, 2-8 concurrent transactions with permuted answers, Client.Close after each transmission index, a write error on each transmission index, and a response delivered from inside the client's own WriteTo; ; plus (1 of 8 sampled cases) a response injected while retransmission k is being written under the client's transaction lock, the write then failing (2 of 3) or succeeding: exactly-once completion at the k-th schedule instant, no second result, lock probes, and a follow-up transaction that itself needs a retransmission; one case in three addresses its transactions to a host other than the configured TURN/STUN server; after a fire-and-forget call has returned the caller builds its next request in the same message value; Client.Close during the write of transmission k (k = 0 is the caller's own first write), the write then failing or succeeding: the call returns once with an error, Close returns; noise and concurrent cases use transaction ids that differ from an open one in a single bit or byte; in a quarter of the cases the scripted answers are error responses (codes 300-699): they complete a transaction like any response" +
 			"oracle: arrival offsets must equal the arithmetic schedule (RTO doubling, 1.6 s cap), count and return instant exact, identity tag of the first matching response, empty transaction table (hook) afterwards; non-trivial = distinct (situation, parameters, RTO) fingerprints",
 		NonTrivial: func(fp string) bool { return true },
 		Exhaustive: func(tier string, ev map[string]int) bool { return ev["loss-subset-covered"] >= 128 },
@@ -182,7 +182,7 @@ func init() {
 		"happens-before is taken from the server's wire log: a response counts as delivered when it is handed to the client's socket",
 		"server-side expiry of permissions is not modelled here (the statement is about the client's ordering obligations); go1.26.8 -race -tags verif build",
 	},
-		Rule: "per case 1-12 peers (every 17th case 64-263, one thorough case 16384), several sharing an IP; a random sequence of sequential and concurrent WriteTo, inbound Data indications / ChannelData on known and unknown channels (some payloads starting with the magic cookie), read-deadline probes, virtual-time jumps across the permission/binding refresh timers, 1100-datagram bursts without a reader, Close; server reactions to CreatePermission/ChannelBind drawn from {success, 400, 403, 438 with fresh nonce (1-4 in a row), silence}; every 7th case: a TCP allocation receives 5-40 ConnectionAttempt indications nobody accepts, followed by a liveness transaction; ; every 20th case: first-writer stampede (6 goroutines released together make the first WriteTo to each of 150/600 new peers); deadline setters are re-armed after a consumed timeout and moved before expiry, each call under a virtual-time watch; before Close a reader is blocked in ReadFrom, one time in three the socket toward the server fails from then on; half of the UDP cases allocate a second time on the same client; every 30th case is the real-server end-to-end case of C05 (UDP and TCP control connection); one Close in three races with a Client.CreatePermission answered 300 ms late and an inbound datagram; the stampede case (every 20th) ends with five writes to a link-local IPv6 peer named with its zone: one binding, one channel number; every other UDP case an empty datagram reaches the client's socket right after Allocate (from the server's address or a stranger's); half of the op-5 steps let two strangers on different hosts speak in turn and answer each at the very address value ReadFrom reported; every 7th case refuses every ChannelBind with 403 while writes go on for more than a binding refresh interval (no ChannelData on an unconfirmed number)" +
+		Rule: "per case 1-12 peers (every 17th case 64-263, one thorough case 16384), several sharing an IP; a random sequence of sequential and concurrent WriteTo, inbound Data indications / ChannelData on known and unknown channels (some payloads starting with the magic cookie), read-deadline probes, virtual-time jumps across the permission/binding refresh timers, 1100-datagram bursts without a reader, Close; server reactions to CreatePermission/ChannelBind drawn from {success, 400, 403, 438 with fresh nonce (1-4 in a row), silence}; every 7th case: a TCP allocation receives 5-40 ConnectionAttempt indications nobody accepts, followed by a liveness transaction; ; every 20th case: first-writer stampede (6 goroutines released together make the first WriteTo to each of 150/600 new peers); deadline setters are re-armed after a consumed timeout and moved before expiry, each call under a virtual-time watch; before Close a reader is blocked in ReadFrom, one time in three the socket toward the server fails from then on; half of the UDP cases allocate a second time on the same client; every 30th case is the real-server end-to-end case of C05 (UDP and TCP control connection); one Close in three races with a Client.CreatePermission answered 300 ms late and an inbound datagram; the stampede case (every 20th) ends with five writes to a link-local IPv6 peer named with its zone: one binding, one channel number; every other UDP case an empty datagram reaches the client's socket right after Allocate (from the server's address or a stranger's); half of the op-5 steps let two strangers on different hosts speak in turn and answer each at the very address value ReadFrom reported; every 7th case refuses every ChannelBind with 403 while writes go on for more than a binding refresh interval (no ChannelData on an unconfirmed number); every 5th case the peers are IPv6 hosts of one prefix; one liveness probe in three needs a retransmission" +
 			"oracle: ordering over the wire log (no Send/ChannelData before the matching success was delivered, payload tag names the peer it was written for), uniqueness/range of channel numbers on the wire and in the hooked binding table, FIFO equality of ReadFrom results with what was relayed, deadlines at exact virtual instants; non-trivial = distinct operation/outcome fingerprints",
 		NonTrivial: func(fp string) bool { return true },
 	}
@@ -192,7 +192,7 @@ func init() {
 	metaTable["C14"] = propMeta{Level: "exploration", Assumptions: append(append([]string{}, commonAssumptions...),
 		"'indefinitely' is restated as bounded: every probe is delivered for 3 h (quick) / up to 48 h (thorough) of virtual time; no finite run decides an unbounded duration",
 		"the fault plan drops at most the first two request copies and responses to the first three copies of a transaction, so every transaction keeps a request and a response; data probes are never dropped"),
-		Rule: "real turn.Client <-> real turn.Server over the simulated network for 3 h (48 h for every 25th thorough case) of virtual time; 1-8 peers; traffic pattern in {continuous, bursts, idle 7 min, idle 40 min, idle 3 h, mixed}; server timeouts from 6 configurations compatible with the client's refresh cadence; 2 of 3 runs with loss/duplication/reordering of control transactions; at every probe instant one tagged datagram per direction and peer must arrive with the right source/attribution and AllocationCount must be 1; after Close it must be 0; ; every 7th case is the same promise for an RFC 6062 relay (client over TCP, AllocateTCP): 3 virtual hours of DialTCP / AcceptTCP probes with echo in both directions (the peer is dialled first so that its permission is one the client tracks), AllocationCount == 1 at every probe, 0 after Close; every 4th UDP run requests an IPv6 relay over the IPv4 path; every 5th run the application stops reading for 15 minutes while a peer floods 1500 datagrams; every 10th run uses the tightest compatible timeouts through the hourly nonce rollover; one run in two starts with a write to a host the permission handler refuses; every probe round includes a datagram from a never-written-to port of a permitted host; every 10th run sets PermissionRefreshInterval to 30 s against a 70 s server timeout; a third of the lossy runs additionally let one transaction in eight through only on its last (7th) transmission, 12.6 s after the first; every third probe round an empty datagram from a stranger reaches the client's socket first; every other run ends with a second Allocate on the same client and four probe rounds to a new peer over up to 20 minutes; two configurations set only a short AllocationLifetime (90 s, 3 min)" +
+		Rule: "real turn.Client <-> real turn.Server over the simulated network for 3 h (48 h for every 25th thorough case) of virtual time; 1-8 peers; traffic pattern in {continuous, bursts, idle 7 min, idle 40 min, idle 3 h, mixed}; server timeouts from 6 configurations compatible with the client's refresh cadence; 2 of 3 runs with loss/duplication/reordering of control transactions; at every probe instant one tagged datagram per direction and peer must arrive with the right source/attribution and AllocationCount must be 1; after Close it must be 0; ; every 7th case is the same promise for an RFC 6062 relay (client over TCP, AllocateTCP): 3 virtual hours of DialTCP / AcceptTCP probes with echo in both directions (the peer is dialled first so that its permission is one the client tracks), AllocationCount == 1 at every probe, 0 after Close; every 4th UDP run requests an IPv6 relay over the IPv4 path; every 5th run the application stops reading for 15 minutes while a peer floods 1500 datagrams; every 10th run uses the tightest compatible timeouts through the hourly nonce rollover; one run in two starts with a write to a host the permission handler refuses; every probe round includes a datagram from a never-written-to port of a permitted host; every 10th run sets PermissionRefreshInterval to 30 s against a 70 s server timeout; a third of the lossy runs additionally let one transaction in eight through only on its last (7th) transmission, 12.6 s after the first; every third probe round an empty datagram from a stranger reaches the client's socket first; every other run ends with a second Allocate on the same client and four probe rounds to a new peer over up to 20 minutes; two configurations set only a short AllocationLifetime (90 s, 3 min); half of the second allocations are followed by another Close of the first socket" +
 			"non-trivial = distinct (pattern, peers, lossy, timeout configuration) runs",
 		NonTrivial: func(fp string) bool { return true },
 	}
@@ -225,7 +225,7 @@ func init() {
 		"generators and handlers read time.Now inside a testing/synctest bubble; the boundary is the Unix second stamped in the username (valid while now <= expiry)",
 		"oracle = own HMAC-SHA1 / MD5 computation; go1.26.8 -race build of /repo's working tree",
 	},
-		Rule: "9 of 10 cases: (generator/handler pair in {long-term, TURN REST}) x secret x user name x realm x duration in {-1h,-1s,0,1s,5s,1min,1d} at a PRNG-chosen clock instant; the handler is called at every second of [expiry-5 s, expiry+5 s] plus +1 h and +400 d, each time checking ok == (now <= expiry), key == MD5(username:realm:HMAC password), user id, MESSAGE-INTEGRITY of a message signed with the issued / a mutated / another-secret / another-username password, 6 single-character username mutations, 9 malformed timestamps and the cross-format pairing; ; every 5th case additionally calls one handler value from 8 goroutines x 1500 calls (distinct valid users) and compares every returned key with the caller's own reference; end-to-end cases draw realms with upper case, non-ASCII letters and percent signs and user names with colons and spaces; handler calls carry a random request method; durations with a sub-second part; the end-to-end case re-uses a credential after its expiry on a server that accepted it before; durations up to the year-2100 horizon and beyond 32-bit seconds; user names up to 500+ bytes; a third of the cases use secrets of 19/20/21/63/64/65/127/128/129/1000 bytes (around the digest and block sizes of HMAC-SHA1); end-to-end user names include no-break, thin, narrow and ideographic spaces and accented letters" +
+		Rule: "9 of 10 cases: (generator/handler pair in {long-term, TURN REST}) x secret x user name x realm x duration in {-1h,-1s,0,1s,5s,1min,1d} at a PRNG-chosen clock instant; the handler is called at every second of [expiry-5 s, expiry+5 s] plus +1 h and +400 d, each time checking ok == (now <= expiry), key == MD5(username:realm:HMAC password), user id, MESSAGE-INTEGRITY of a message signed with the issued / a mutated / another-secret / another-username password, 6 single-character username mutations, 9 malformed timestamps and the cross-format pairing; ; every 5th case additionally calls one handler value from 8 goroutines x 1500 calls (distinct valid users) and compares every returned key with the caller's own reference; end-to-end cases draw realms with upper case, non-ASCII letters and percent signs and user names with colons and spaces; handler calls carry a random request method; durations with a sub-second part; the end-to-end case re-uses a credential after its expiry on a server that accepted it before; durations up to the year-2100 horizon and beyond 32-bit seconds; user names up to 500+ bytes; a third of the cases use secrets of 19/20/21/63/64/65/127/128/129/1000 bytes (around the digest and block sizes of HMAC-SHA1); end-to-end user names include no-break, thin, narrow and ideographic spaces and accented letters; the server's realm may be empty; the client is configured with the server's realm, with none, or with another one (the challenge decides)" +
 			"1 of 10: Allocate with a real client through a real server 2 s before and just after expiry; non-trivial = distinct (pair, duration, validity, offset) fingerprints",
 		NonTrivial: func(fp string) bool { return true },
 	}
@@ -251,7 +251,7 @@ func init() {
 			"'all control-flow paths of every function that takes a mutex' is covered dynamically only: lock probes (TryLock hooks) run after every step of every workload; paths no workload reaches are not judged",
 			"go1.26.8 -race -tags verif build of /repo's working tree; every other property's check also runs under -race and reports race counts in its evidence",
 		},
-		Rule: "1 of 7 cases: real-time stress for 0.5 s (thorough 1.5 s) - 6-15 UDP and 2-7 TCP scripted clients issue Allocate/Refresh/Refresh 0/CreatePermission/ChannelBind/Send/ChannelData in tight loops against lifetimes of 20-200 ms and permission/channel timeouts of 5-50 ms, 4 peers flood every relay, AllocationCount is polled, lifecycle callbacks are randomly slow, Server.Close races with traffic in half of the cases; 1 of 7: concurrent Allocate/Refresh bursts on a TCP listener with linearizability check; 5 of 7: forced schedules in virtual time - one of 7 yield points (permission-created / allocation-deleted callback, auth handler, permission handler, relay generator, listener socket write, or an exact tie) is slow across the allocation / permission / channel expiry while the triggering request is in flight and traffic keeps arriving; ; 1 of 9 cases: an RFC 6062 allocation (or two) with 2-4 permitted peers is torn down by Refresh 0 / control-connection close / expiry / Server.Close while its permission-deleted callbacks are slow and every peer connects to every relayed address during each of those callbacks (relay accept path vs teardown path on the allocation and manager locks); lock probes and a bystander's Refresh afterwards; forced schedule tie-bind: a ChannelBind that must create the permission of a new peer (slow permission-created callback) lands on the allocation's expiry instant; client cases include Close during a (first or repeated) transmission's socket write; every 18th case (real time): TCPAllocation.Close of the real client against four peers that keep connecting to its relayed address (ConnectionAttempt delivery vs Close), six rounds with re-allocation; every 27th case is the slow-Connect case (a dial that takes 20 s while another allocation expires and a bystander keeps working)" +
+		Rule: "1 of 7 cases: real-time stress for 0.5 s (thorough 1.5 s) - 6-15 UDP and 2-7 TCP scripted clients issue Allocate/Refresh/Refresh 0/CreatePermission/ChannelBind/Send/ChannelData in tight loops against lifetimes of 20-200 ms and permission/channel timeouts of 5-50 ms, 4 peers flood every relay, AllocationCount is polled, lifecycle callbacks are randomly slow, Server.Close races with traffic in half of the cases; 1 of 7: concurrent Allocate/Refresh bursts on a TCP listener with linearizability check; 5 of 7: forced schedules in virtual time - one of 7 yield points (permission-created / allocation-deleted callback, auth handler, permission handler, relay generator, listener socket write, or an exact tie) is slow across the allocation / permission / channel expiry while the triggering request is in flight and traffic keeps arriving; ; 1 of 9 cases: an RFC 6062 allocation (or two) with 2-4 permitted peers is torn down by Refresh 0 / control-connection close / expiry / Server.Close while its permission-deleted callbacks are slow and every peer connects to every relayed address during each of those callbacks (relay accept path vs teardown path on the allocation and manager locks); lock probes and a bystander's Refresh afterwards; forced schedule tie-bind: a ChannelBind that must create the permission of a new peer (slow permission-created callback) lands on the allocation's expiry instant; client cases include Close during a (first or repeated) transmission's socket write; every 18th case (real time): TCPAllocation.Close of the real client against four peers that keep connecting to its relayed address (ConnectionAttempt delivery vs Close), six rounds with re-allocation; every 27th case is the slow-Connect case (a dial that takes 20 s while another allocation expires and a bystander keeps working); the TCP allocation case sets two deadlines on the accepting side per round (one expiring while Accept waits, one set to now from another goroutine after Accept was re-entered): each must make Accept return" +
 			"oracles: race detector reports, process survival, hang watchdog, manager lock probes, bystander liveness, cross-delivery tags, goroutines left blocked; non-trivial = distinct (kind, yield point, timer) fingerprints",
 		NonTrivial: func(fp string) bool { return true },
 	}
